@@ -12,11 +12,10 @@ EXTENDS Pipeline, IOUtils
 
 Scns == JsonDeserialize(IOEnv.SCN_FILE)      \* sequence of scenarios
 
-InitFrom ==
+InitFromIdx(i) ==
   /\ nbufg = 0 /\ pc = "mat" /\ why = "none"
   /\ order = <<>> /\ bufw = <<>> /\ qi = 0 /\ insts = <<>>
-  /\ \E i \in 1..Len(Scns) :
-       LET S == Scns[i]  G1 == S.subs IN
+  /\ LET S == Scns[i]  G1 == S.subs IN
        /\ G = G1 /\ mode = S.mode /\ inmode = S.inmode /\ outmode = S.outmode
        /\ qsv = [s \in 1..Len(G1) |-> [t \in 1..Len(G1[s].trole) |-> <<"cal", s, t-1>>]]
        /\ prod = [s \in 1..Len(G1) |-> [t \in 1..Len(G1[s].trole) |-> NoEntry]]
@@ -29,5 +28,6 @@ InitFrom ==
                  nm |-> [t \in 1..Len(G1[s].trole) |-> <<t-1>>],
                  shp |-> G1[s].tsh, ntens |-> Len(G1[s].trole),
                  omap |-> [k \in 1..Len(G1[s].ops) |-> k-1], amap |-> <<>>]]
+InitFrom == \E i \in 1..Len(Scns) : InitFromIdx(i)
 SpecFrom == InitFrom /\ [][Run \/ Stutter]_vars
 =============================================================================
